@@ -167,10 +167,7 @@ def verify_uri(
         client_redirect_uris = [tuple(client_redirect_uris)]
     if not client_redirect_uris:
         # an OIDC client must have registered with redirect URIs
-        if endpoint_type == "oidc":
-            raise RedirectURIError(f"No registered {uri_type} for {client_id}")
-        else:
-            return
+        raise RedirectURIError(f"No registered {uri_type} for {client_id}")
 
     # TODO move: this processing should be done during client registration/loading
     # TODO optimize: keep unique URIs (mayby use a set)
